@@ -22,6 +22,9 @@ for r in res:
             continue
         out = VERIF / 'seeded' / f'{pid}-{k}'
     else:
+        if not (r.get('suite_passed') == 150 and not r.get('suite_failed') and r.get('compare_identical') is True and r.get('compare_clean_rc') == 0):
+            print('NOT VERIFIED', d, r.get('suite_passed'), r.get('compare_identical'), r.get('compare_clean_rc'))
+            continue
         out = VERIF / 'benign' / f'{pid}-{k}'
     out.mkdir(parents=True, exist_ok=True)
     shutil.copy(d / 'patch.diff', out / 'patch.diff')
@@ -50,7 +53,18 @@ for r in res:
         meta['caught_by'] = r.get('caught_by')
         meta['first_findings'] = {p: c['findings'][:2] for p, c in (r.get('checks') or {}).items() if c['rc'] == 1}
     else:
-        meta['alarms'] = r.get('caught_by')
-        meta['analysis_errors'] = r.get('analysis_errors')
+        for c in (d / 'compare.py', d.parent / 'compare.py'):
+            if c.exists():
+                shutil.copy(c, out / 'compare.py')
+                break
+        meta['verified'] = {
+            'how': 'tools/benign_eval.py --verify: scratch git worktree of /repo HEAD; compare.py (digest of end-to-end runs) on the clean tree; '
+                   'git apply patch.diff; the pinned suite; compare.py on the patched tree (identical output); every ./check <ID> --repo <scratch>',
+            'suite_passed_with_patch': r.get('suite_passed'),
+            'compare_identical': r.get('compare_identical'),
+            'compare_lines': r.get('compare_lines'),
+        }
+        meta['alarms_when_imported'] = r.get('alarms', r.get('caught_by'))
+        meta['analysis_errors_when_imported'] = r.get('analysis_errors')
     (out / 'meta.json').write_text(json.dumps(meta, indent=1) + '\n')
-    print('ok', out.name, meta.get('caught_by', meta.get('alarms')))
+    print('ok', out.name, meta.get('caught_by', meta.get('alarms_when_imported')))
